@@ -13,7 +13,7 @@
    Nothing but statements lives in this file. *)
 From Coq Require Import ZArith List Bool Permutation.
 From VV Require Import Base.F64 Fitness.F64Order Fitness.FitnessDefs Fitness.FitnessProofs.
-From VV Require Import Fitness.FitnessSrc Gen.FitnessOps Fitness.FitnessSrcProofs.
+From VV Require Import Fitness.FitnessSrc Gen.FitnessOps Fitness.FitnessSrcProofs Fitness.UtilityProofs.
 Import ListNotations.
 
 (* ---- TIE BY REGENERATION.  Gen/FitnessOps.v is rewritten from fitness.tcc and
@@ -266,6 +266,47 @@ Theorem C18_distance_is_sum_abs : forall a b,
 Proof. intros a b. exact (conj (distance_is_sum_abs a b) (distance_contract a b)). Qed.
 Print Assumptions C18_distance_is_sum_abs.
 
+(* ---- what survives WITH NaN components (no hypothesis at all): the strict
+   parts.  What is lost is in Props/Refuted_C18.v. *)
+Theorem C18_lt_irrefl_asym_any : forall a b,
+  lt_lex a a = false /\ (lt_lex a b = true -> lt_lex b a = false).
+Proof. intros a b. exact (conj (lt_irrefl_any a) (lt_asym_any a b)). Qed.
+Print Assumptions C18_lt_irrefl_asym_any.
+
+Theorem C18_dom_irrefl_asym_any : forall a b,
+  dominating a a = false /\ (dominating a b = true -> dominating b a = false) /\
+  (dominating a b = true -> gt a b = true).
+Proof. intros a b. exact (conj (dom_irrefl_any a) (conj (dom_asym_any a b) (dom_implies_gt_any a b))). Qed.
+Print Assumptions C18_dom_irrefl_asym_any.
+
+(* ---- utility.h: issmall, isnonnegative, almost_equal and their lifts *)
+Theorem C18_almost_equal_reflexive_on_finite : forall x e,
+  F64.is_finite x = true -> almost_equal x x e = true.
+Proof. exact almost_equal_refl_finite. Qed.
+Print Assumptions C18_almost_equal_reflexive_on_finite.
+
+(* all doubles, NaN included *)
+Theorem C18_almost_equal_symmetric : forall x y e, almost_equal x y e = almost_equal y x e.
+Proof. exact almost_equal_sym. Qed.
+Print Assumptions C18_almost_equal_symmetric.
+
+Theorem C18_almost_equal_elementwise : forall a b e,
+  (length a = length b ->
+   valmost_equal a b e = Some (forallb (fun p => almost_equal (fst p) (snd p) e) (combine a b))) /\
+  (length a <> length b -> valmost_equal a b e = None).
+Proof. exact valmost_equal_spec. Qed.
+Print Assumptions C18_almost_equal_elementwise.
+
+Theorem C18_almost_equal_fitness_laws : forall a b e,
+  (vis_finite a = true -> valmost_equal a a e = Some true) /\
+  valmost_equal a b e = valmost_equal b a e.
+Proof. intros a b e. exact (conj (valmost_equal_refl_finite a e) (valmost_equal_sym a b e)). Qed.
+Print Assumptions C18_almost_equal_fitness_laws.
+
+Theorem C18_isnonnegative_is_sign_test : forall x, nonan x -> isnonnegative x = (0 <=? key x)%Z.
+Proof. exact isnonnegative_key. Qed.
+Print Assumptions C18_isnonnegative_is_sign_test.
+
 (* ================================================================== *)
 (* Non-vacuity: the hypotheses are met by non-trivial values, the model does
    compute, and the side conditions are needed. *)
@@ -348,4 +389,12 @@ Example mm_ge_example :
         {| m_fitness := [one]; m_accuracy := p0; m_is_solution := false |} = true /\
   mm_ge {| m_fitness := [two]; m_accuracy := one; m_is_solution := false |}
         {| m_fitness := [two]; m_accuracy := one; m_is_solution := false |} = false.
+Proof. vm_compute. repeat split. Qed.
+
+Example utility_examples :
+  issmall (d 4372995238176751616) = true /\ issmall (d 4377498837804122112) = false /\   (* 2^-52, 2^-51 *)
+  isnonnegative n0 = true /\ isnonnegative (d 9223372036854775809) = false /\            (* -0, -denormal *)
+  almost_equal one (d 4607182463836013682) default_ae_epsilon = true /\                  (* 1 ~ 1.00001 *)
+  almost_equal one (d 4607182508872009955) default_ae_epsilon = false /\                 (* 1 !~ 1.00002 *)
+  valmost_equal [one] [one; two] default_ae_epsilon = None.
 Proof. vm_compute. repeat split. Qed.
